@@ -8,9 +8,9 @@ Theorems about `Ecal.Debug` (model of `interpreter/debug.go`).
   `continue_completes`, `released_thread_progresses`, `stop_releases_all`;
   old code: `lost_resume_reachable` (negative witness);
 * decision functions: `suspends_at_active_breakpoint`, `step_semantics_stepin`,
-  `step_semantics_stepover`, `step_semantics_stepout`,
-  `stepping_passes_breakpoints` (a deviation of the code from the property's wording,
-  stated as a theorem about the code as it is);
+  `step_semantics_stepover`, `step_semantics_stepout`, and — for a thread in ANY debugging
+  situation — `suspends_whenever_arriving` with `line_tracks_last_visit`
+  (needs fix "stepping honours break points" in `VisitState`);
 * `observer_only`: the model's debugger cannot touch the evaluator's state — by type.
   For the Go CODE "same result, log and variables" is NOT a theorem here: it is the
   metamorphic comparison of debugged and plain runs in the correspondence check.
@@ -212,58 +212,79 @@ inductive Balanced : List Ev → Prop where
 (an error return suspends the thread by itself, whatever the stepping command) -/
 def Quiet (boe : Bool) (t : List Ev) : Prop := ∀ l e, Ev.exit l e ∈ t → (boe && e) = false
 
-/-- `is.err` is the only thing a quiet balanced piece changes while stepping out -/
-def setErr (r : Run) (b : Bool) : Run :=
-  { r with d := { r.d with is := r.d.is.map (fun is => { is with err := b }) } }
+/-- no node of the trace lies on a line with an active break point -/
+def NoBp (bps : List (Loc × Bool)) (t : List Ev) : Prop := ∀ l, Ev.visit l ∈ t → bpActive bps l = false
 
-/-- the thread passes everything until its call depth comes back to `n` -/
+/-- `is.err` and the position marker `is.node` are all a quiet balanced piece without break
+points changes while stepping out -/
+def setEL (r : Run) (b : Bool) (ln : Nat) : Run :=
+  { r with d := { r.d with is := r.d.is.map (fun is => { is with err := b, line := ln }) } }
+
+/-- the thread passes everything (except break points) until its call depth comes back to `n` -/
 def SteppingOut (r : Run) (n : Nat) : Prop :=
   Alive r ∧ ∃ is, r.d.is = some is ∧ is.cmd = .stepOut ∧ is.soDepth = n ∧ n < r.d.depth
 
 theorem steppingOut_balanced {t : List Ev} (hb : Balanced t) :
-    ∀ (r : Run) (n : Nat), SteppingOut r n → Quiet r.d.breakOnError t →
-      ∃ b, runTrace r t = setErr r b := by
+    ∀ (r : Run) (n : Nat), SteppingOut r n → Quiet r.d.breakOnError t → NoBp r.d.bps t →
+      ∃ b ln, runTrace r t = setEL r b ln := by
   induction hb with
   | nil =>
-    intro r n ⟨_, is, his, _⟩ _
-    refine ⟨is.err, ?_⟩
+    intro r n ⟨_, is, his, _⟩ _ _
+    refine ⟨is.err, is.line, ?_⟩
     obtain ⟨⟨is', depth, bps, bos, boe⟩, script, susp, killed, crashed⟩ := r
     simp only at his
     subst his
-    simp [runTrace, setErr]
+    simp [runTrace, setEL]
   | visit l _ ih =>
-    intro r n hs hq
-    have hstep : stepEv r (.visit l) = r := by
-      obtain ⟨⟨hk, hc⟩, is, his, hcmd, _⟩ := hs
-      simp [stepEv, hk, hc, visitState, his, hcmd]
-    have hq' : Quiet r.d.breakOnError _ := fun l' e h => hq l' e (List.mem_cons_of_mem _ h)
-    simpa [runTrace, hstep] using ih r n hs hq'
-  | call l l' e hb1 hb2 ih1 ih2 =>
-    rename_i b t
-    intro r n hs hq
+    intro r n hs hq hnb
     obtain ⟨⟨is', depth, bps, bos, boe⟩, script, susp, killed, crashed⟩ := r
     obtain ⟨⟨hk, hc⟩, is, his, hcmd, hso, hlt⟩ := hs
-    simp only at his hk hc hlt hq
+    simp only at his hk hc hlt hq hnb
     subst his hk hc
-    -- enter
+    have hbp : bpActive bps l = false := hnb l (by simp)
+    have hstep : stepEv ⟨⟨some is, depth, bps, bos, boe⟩, script, susp, false, false⟩ (.visit l)
+        = setEL ⟨⟨some is, depth, bps, bos, boe⟩, script, susp, false, false⟩ is.err l.line := by
+      by_cases hl : is.line = l.line
+      · obtain ⟨c, ln, so, er, ru⟩ := is
+        simp only at hcmd hl
+        subst hcmd hl
+        simp [stepEv, visitState, setEL]
+      · simp [stepEv, visitState, hcmd, hl, hbp, setEL]
+    have hq' : Quiet boe _ := fun l' e h => hq l' e (List.mem_cons_of_mem _ h)
+    have hnb' : NoBp bps _ := fun l' h => hnb l' (List.mem_cons_of_mem _ h)
+    obtain ⟨b, ln, h⟩ := ih (setEL ⟨⟨some is, depth, bps, bos, boe⟩, script, susp, false, false⟩ is.err l.line) n
+      ⟨⟨rfl, rfl⟩, { is with err := is.err, line := l.line }, rfl, hcmd, hso, hlt⟩ hq' hnb'
+    refine ⟨b, ln, ?_⟩
+    simp only [runTrace, List.foldl_cons] at h ⊢
+    rw [hstep, h]
+    simp [setEL]
+  | call l l' e hb1 hb2 ih1 ih2 =>
+    rename_i b t
+    intro r n hs hq hnb
+    obtain ⟨⟨is', depth, bps, bos, boe⟩, script, susp, killed, crashed⟩ := r
+    obtain ⟨⟨hk, hc⟩, is, his, hcmd, hso, hlt⟩ := hs
+    simp only at his hk hc hlt hq hnb
+    subst his hk hc
     have henter : stepEv ⟨⟨some is, depth, bps, bos, boe⟩, script, susp, false, false⟩ (.enter l)
         = ⟨⟨some is, depth + 1, bps, bos, boe⟩, script, susp, false, false⟩ := by
       simp [stepEv, stepInState, hcmd, enterCmd]
     have hq1 : Quiet boe b := fun l'' e'' h => hq l'' e'' (by simp [h])
     have hq2 : Quiet boe t := fun l'' e'' h => hq l'' e'' (by simp [h])
+    have hn1 : NoBp bps b := fun l'' h => hnb l'' (by simp [h])
+    have hn2 : NoBp bps t := fun l'' h => hnb l'' (by simp [h])
     have hqe : (boe && e) = false := hq l' e (by simp)
-    obtain ⟨b1, h1⟩ := ih1 ⟨⟨some is, depth + 1, bps, bos, boe⟩, script, susp, false, false⟩ n
-      ⟨⟨rfl, rfl⟩, is, rfl, hcmd, hso, by simp only; omega⟩ hq1
-    have hexit : stepEv (setErr ⟨⟨some is, depth + 1, bps, bos, boe⟩, script, susp, false, false⟩ b1)
-        (.exit l' e) = setErr ⟨⟨some is, depth, bps, bos, boe⟩, script, susp, false, false⟩ e := by
+    obtain ⟨b1, ln1, h1⟩ := ih1 ⟨⟨some is, depth + 1, bps, bos, boe⟩, script, susp, false, false⟩ n
+      ⟨⟨rfl, rfl⟩, is, rfl, hcmd, hso, by simp only; omega⟩ hq1 hn1
+    have hexit : stepEv (setEL ⟨⟨some is, depth + 1, bps, bos, boe⟩, script, susp, false, false⟩ b1 ln1)
+        (.exit l' e) = setEL ⟨⟨some is, depth, bps, bos, boe⟩, script, susp, false, false⟩ e ln1 := by
       have : depth ≠ is.soDepth := by omega
-      simp [stepEv, setErr, stepOutState, hqe, exitCmd, hcmd, this]
-    obtain ⟨b2, h2⟩ := ih2 (setErr ⟨⟨some is, depth, bps, bos, boe⟩, script, susp, false, false⟩ e) n
-      ⟨⟨rfl, rfl⟩, { is with err := e }, rfl, hcmd, hso, hlt⟩ hq2
-    refine ⟨b2, ?_⟩
+      simp [stepEv, setEL, stepOutState, hqe, exitCmd, hcmd, this]
+    obtain ⟨b2, ln2, h2⟩ := ih2 (setEL ⟨⟨some is, depth, bps, bos, boe⟩, script, susp, false, false⟩ e ln1) n
+      ⟨⟨rfl, rfl⟩, { is with err := e, line := ln1 }, rfl, hcmd, hso, hlt⟩ hq2 hn2
+    refine ⟨b2, ln2, ?_⟩
     simp only [runTrace, List.foldl_cons, List.foldl_append] at h1 h2 ⊢
     rw [henter, h1, hexit, h2]
-    simp [setErr]
+    simp [setEL]
 
 /-- **Step in.** With `stepIn` pending, the thread passes the remaining nodes of the line it
 stopped on, suspends at the first node on another line, and when a function call is
@@ -287,18 +308,20 @@ theorem step_semantics_stepin (r : Run) (is : IState) (hal : Alive r)
     simp [runTrace, stepEv, stepInState, visitState, hcmd, enterCmd]
 
 /-- **Step over.** With `stepOver` pending at call depth `n`, a complete function call
-(`enter`, a balanced body at any nesting, its `exit`) is passed without suspension —
-and the next node visited afterwards (on whatever line) suspends the thread at depth `n`. -/
+(`enter`, a balanced body at any nesting without active break points, its `exit`) is passed
+without suspension — and the next node visited afterwards (on whatever line) suspends the
+thread at depth `n`. (Break points inside the call DO stop the thread:
+`suspends_whenever_arriving`.) -/
 theorem step_semantics_stepover (r : Run) (is : IState) (hal : Alive r)
     (his : r.d.is = some is) (hcmd : is.cmd = .stepOver)
     (l l' : Loc) (e : Bool) (body : List Ev) (hb : Balanced body)
-    (hq : Quiet r.d.breakOnError (body ++ [.exit l' e])) :
+    (hq : Quiet r.d.breakOnError (body ++ [.exit l' e])) (hnb : NoBp r.d.bps body) :
     let r' := runTrace r (.enter l :: (body ++ [.exit l' e]))
     r'.susp = r.susp ∧ r'.d.depth = r.d.depth ∧ Alive r' ∧
       ∀ l2, (stepEv r' (.visit l2)).susp = r.susp ++ [l2] := by
   obtain ⟨⟨is', depth, bps, bos, boe⟩, script, susp, killed, crashed⟩ := r
   obtain ⟨hk, hc⟩ := hal
-  simp only at his hk hc hq
+  simp only at his hk hc hq hnb
   subst his hk hc
   have henter : stepEv ⟨⟨some is, depth, bps, bos, boe⟩, script, susp, false, false⟩ (.enter l)
       = ⟨⟨some { is with cmd := .stepOut, soDepth := depth }, depth + 1, bps, bos, boe⟩, script, susp,
@@ -306,16 +329,16 @@ theorem step_semantics_stepover (r : Run) (is : IState) (hal : Alive r)
     simp [stepEv, stepInState, hcmd, enterCmd]
   have hq1 : Quiet boe body := fun l'' e'' h => hq l'' e'' (by simp [h])
   have hqe : (boe && e) = false := hq l' e (by simp)
-  obtain ⟨b1, h1⟩ := steppingOut_balanced hb
+  obtain ⟨b1, ln1, h1⟩ := steppingOut_balanced hb
     ⟨⟨some { is with cmd := .stepOut, soDepth := depth }, depth + 1, bps, bos, boe⟩, script, susp, false, false⟩
-    depth ⟨⟨rfl, rfl⟩, _, rfl, rfl, rfl, by simp⟩ hq1
+    depth ⟨⟨rfl, rfl⟩, _, rfl, rfl, rfl, by simp⟩ hq1 hnb
   have hfin : runTrace ⟨⟨some is, depth, bps, bos, boe⟩, script, susp, false, false⟩
       (.enter l :: (body ++ [.exit l' e]))
-      = ⟨⟨some { is with cmd := .stop, soDepth := depth, err := e }, depth, bps, bos, boe⟩, script, susp,
-          false, false⟩ := by
+      = ⟨⟨some { is with cmd := .stop, soDepth := depth, err := e, line := ln1 }, depth, bps, bos, boe⟩,
+          script, susp, false, false⟩ := by
     simp only [runTrace, List.foldl_cons, List.foldl_append, List.foldl_nil] at h1 ⊢
     rw [henter, h1]
-    simp [stepEv, setErr, stepOutState, hqe, exitCmd]
+    simp [stepEv, setEL, stepOutState, hqe, exitCmd]
   intro r'
   have hr' : r' = _ := hfin
   clear_value r'
@@ -325,35 +348,35 @@ theorem step_semantics_stepover (r : Run) (is : IState) (hal : Alive r)
   simp [stepEv, visitState]
 
 /-- **Step out.** A thread suspended inside a call (depth `n + 1`) that is continued with
-`stepOut` passes the rest of the function body (balanced, at any nesting) and the return,
-and suspends at the next node visited in the caller (depth `n`). -/
+`stepOut` passes the rest of the function body (balanced, at any nesting, without active break
+points) and the return, and suspends at the next node visited in the caller (depth `n`). -/
 theorem step_semantics_stepout (r : Run) (is : IState) (n : Nat) (hal : Alive r)
     (his : r.d.is = some is) (hsusp : is.running = false) (hdepth : r.d.depth = n + 1)
     (l' : Loc) (e : Bool) (body : List Ev) (hb : Balanced body)
-    (hq : Quiet r.d.breakOnError (body ++ [.exit l' e])) :
+    (hq : Quiet r.d.breakOnError (body ++ [.exit l' e])) (hnb : NoBp r.d.bps body) :
     let r' := runTrace { r with d := applyCont r.d .stepOut } (body ++ [.exit l' e])
     r'.susp = r.susp ∧ r'.d.depth = n ∧ Alive r' ∧
       ∀ l2, (stepEv r' (.visit l2)).susp = r.susp ++ [l2] := by
   obtain ⟨⟨is', depth, bps, bos, boe⟩, script, susp, killed, crashed⟩ := r
   obtain ⟨hk, hc⟩ := hal
-  simp only at his hk hc hq hdepth
+  simp only at his hk hc hq hdepth hnb
   subst his hk hc hdepth
   have hcont : applyCont ⟨some is, n + 1, bps, bos, boe⟩ .stepOut
       = ⟨some { is with cmd := .stepOut, soDepth := n, running := true }, n + 1, bps, bos, boe⟩ := by
     simp [applyCont, hsusp, Cont.toCmd]
   have hq1 : Quiet boe body := fun l'' e'' h => hq l'' e'' (by simp [h])
   have hqe : (boe && e) = false := hq l' e (by simp)
-  obtain ⟨b1, h1⟩ := steppingOut_balanced hb
+  obtain ⟨b1, ln1, h1⟩ := steppingOut_balanced hb
     ⟨⟨some { is with cmd := .stepOut, soDepth := n, running := true }, n + 1, bps, bos, boe⟩, script, susp,
       false, false⟩
-    n ⟨⟨rfl, rfl⟩, _, rfl, rfl, rfl, by simp⟩ hq1
+    n ⟨⟨rfl, rfl⟩, _, rfl, rfl, rfl, by simp⟩ hq1 hnb
   have hfin : runTrace ⟨applyCont ⟨some is, n + 1, bps, bos, boe⟩ .stepOut, script, susp, false, false⟩
       (body ++ [.exit l' e])
-      = ⟨⟨some { is with cmd := .stop, soDepth := n, running := true, err := e }, n, bps, bos, boe⟩, script,
-          susp, false, false⟩ := by
+      = ⟨⟨some { is with cmd := .stop, soDepth := n, running := true, err := e, line := ln1 }, n, bps, bos,
+          boe⟩, script, susp, false, false⟩ := by
     simp only [runTrace, List.foldl_cons, List.foldl_append, List.foldl_nil] at h1 ⊢
     rw [hcont, h1]
-    simp [stepEv, setErr, stepOutState, hqe, exitCmd]
+    simp [stepEv, setEL, stepOutState, hqe, exitCmd]
   intro r'
   have hr' : r' = _ := hfin
   clear_value r'
@@ -365,15 +388,112 @@ theorem step_semantics_stepout (r : Run) (is : IState) (n : Nat) (hal : Alive r)
 example : Balanced [.visit ⟨0, 2⟩, .enter ⟨0, 2⟩, .visit ⟨0, 7⟩, .exit ⟨0, 2⟩ false] :=
   .visit _ (.call (b := [.visit ⟨0, 7⟩]) (t := []) _ _ _ (.visit _ .nil) .nil)
 
-/-- **The code as it is: stepping over / out of a call ignores break points inside it.**
-While `stepOut` is pending (also the second half of `stepOver`) a node on a line with an
-active break point is passed. The property's wording ("a thread suspends whenever it
-arrives … at a line with an active breakpoint") holds for threads that are not in the
-middle of a step-over / step-out; this theorem records the exception. -/
-theorem stepping_passes_breakpoints (r : Run) (n : Nat) (hs : SteppingOut r n) (l : Loc)
-    (_hbp : bpActive r.d.bps l = true) : stepEv r (.visit l) = r := by
-  obtain ⟨⟨hk, hc⟩, is, his, hcmd, _⟩ := hs
-  simp [stepEv, hk, hc, visitState, his, hcmd]
+/-! ### "whenever it arrives, from a different line, at a line with an active break point" -/
+
+theorem applyAct_line (d : Dbg) (a : Act) (is : IState) (ln : Nat)
+    (h : ∀ is0, d.is = some is0 → is0.line = ln) (h' : (applyAct d a).is = some is) : is.line = ln := by
+  have hops : ∀ (ops : List BpOp) (d : Dbg), (ops.foldl applyOp d).is = d.is := by
+    intro ops
+    induction ops with
+    | nil => intro d; rfl
+    | cons o os ih =>
+      intro d
+      simp only [List.foldl_cons]
+      rw [ih]
+      cases o <;> simp [applyOp] <;> split <;> rfl
+  unfold applyAct at h'
+  have h0 := hops a.ops d
+  generalize (a.ops.foldl applyOp d) = d1 at h' h0
+  cases hc : a.cmd with
+  | none =>
+    simp only [hc, applyKill] at h'
+    cases hi : d1.is with
+    | none => simp [hi] at h'
+    | some is1 =>
+      have := h is1 (by rw [← h0, hi])
+      simp only [hi] at h'
+      split at h' <;> simp_all <;> (subst h'; simp_all)
+  | some c =>
+    simp only [hc, applyCont] at h'
+    cases hi : d1.is with
+    | none => simp [hi] at h'
+    | some is1 =>
+      have := h is1 (by rw [← h0, hi])
+      simp only [hi] at h'
+      split at h' <;> simp_all <;> (subst h'; simp_all)
+
+theorem park_line (r : Run) (l : Loc) (is : IState) (ln : Nat)
+    (h : ∀ is0, r.d.is = some is0 → is0.line = ln) (h' : (park r l).d.is = some is) : is.line = ln := by
+  unfold park at h'
+  split at h'
+  · exact applyAct_line _ _ _ _ h h'
+  · exact applyAct_line _ _ _ _ h h'
+
+/-- **`is.node` follows the thread.** After any node visit, an interrogation state that
+exists carries the line of that node: so in the next theorem "`is.line ≠ l.line`" says
+exactly "the thread arrives from a different line". -/
+theorem line_tracks_last_visit (r : Run) (l : Loc) (hal : Alive r) (is' : IState)
+    (h' : (stepEv r (.visit l)).d.is = some is') (hal' : Alive (stepEv r (.visit l))) :
+    is'.line = l.line := by
+  obtain ⟨⟨is, depth, bps, bos, boe⟩, script, susp, killed, crashed⟩ := r
+  obtain ⟨hk, hc⟩ := hal
+  simp only at hk hc
+  subst hk hc
+  simp only [stepEv, Bool.or_self, Bool.false_eq_true, if_false] at h' hal'
+  cases is with
+  | none =>
+    simp only [visitState, visitFresh] at h'
+    split at h'
+    · exact park_line _ _ _ _ (by simp [freshState]) h'
+    · simp at h'
+  | some is =>
+    simp only [visitState] at h' hal'
+    split at h' <;> (try simp only [] at h' hal')
+    · -- resume
+      split at h'
+      · simp only [visitFresh] at h'
+        split at h'
+        · exact park_line _ _ _ _ (by simp [freshState]) h'
+        · simp at h'
+      · simp_all
+    · -- kill
+      split at h'
+      · simp at h'
+      · simp_all
+    · -- stepOut
+      split at h'
+      · split at h'
+        · exact park_line _ _ _ _ (by simp) h'
+        · simp at h'; subst h'; rfl
+      · simp_all
+    · split at h'
+      · exact park_line _ _ _ _ (by simp) h'
+      · simp_all
+
+/-- **Suspension whenever the thread arrives at an active break point** — for a thread in
+ANY debugging situation (not interrogated, resumed, stepping in / over / out at any depth),
+except one that `StopThreads` has told to end: if the node lies on a line with an active
+break point and the thread comes from a different line (`line_tracks_last_visit`), it
+reports suspension there. -/
+theorem suspends_whenever_arriving (r : Run) (l : Loc) (hal : Alive r)
+    (hbp : bpActive r.d.bps l = true)
+    (hfrom : ∀ is, r.d.is = some is → is.line ≠ l.line ∧ is.cmd ≠ .kill) :
+    (stepEv r (.visit l)).susp = r.susp ++ [l] := by
+  obtain ⟨⟨is, depth, bps, bos, boe⟩, script, susp, killed, crashed⟩ := r
+  obtain ⟨hk, hc⟩ := hal
+  simp only at hk hc hbp
+  subst hk hc
+  cases is with
+  | none => simp [stepEv, visitState, visitFresh, hbp]
+  | some is =>
+    obtain ⟨hl, hkill⟩ := hfrom is rfl
+    cases hcmd : is.cmd <;> simp_all [stepEv, visitState, visitFresh]
+
+example : ∃ (r : Run) (l : Loc), Alive r ∧ bpActive r.d.bps l = true ∧
+    (∃ is, r.d.is = some is ∧ is.cmd = .stepOut) ∧
+    (∀ is, r.d.is = some is → is.line ≠ l.line ∧ is.cmd ≠ .kill) :=
+  ⟨Run.init { Dbg.init false true with bps := [(⟨0, 3⟩, true)], is := some ⟨.stepOut, 9, 0, false, true⟩, depth := 2 } [],
+    ⟨0, 3⟩, ⟨rfl, rfl⟩, by decide, ⟨_, rfl, rfl⟩, by decide⟩
 
 /-! ### the debugger only observes -/
 
